@@ -329,14 +329,17 @@ impl HistMonitor for Twin {
                 let frozen: Option<Box<dyn Graph>> = match self.kind {
                     Kind::Clone => crate::rec::guarded(|| s.g.clone_box()).ok(),
                     Kind::Reload => {
-                        let mut g2 = crate::rec::guarded(|| s.g.clone_box()).ok();
                         // a second image of the same graph, loaded and never touched again
-                        if let Some(g) = &mut g2 {
-                            let mut tmp: Box<dyn Graph> = std::mem::replace(g, crate::shim::new_graph(1, 1));
-                            let _ = exec_raw(&mut tmp, &Op::SaveLoad { swap: true }, &s.workdir, &mut self.uniq, &ctx.labels);
-                            *g = tmp;
+                        // (made by save()+load() only: clone() is C10's business, not this monitor's)
+                        self.uniq += 1;
+                        let path = s.workdir.join(format!("fz-{}-{}.sodg", std::process::id(), self.uniq));
+                        let n = s.n;
+                        let r = crate::rec::guarded(|| s.g.save(&path).and_then(|_| crate::shim::load_graph(n, &path)));
+                        let _ = std::fs::remove_file(&path);
+                        match r {
+                            Ok(Ok(g)) => Some(g),
+                            _ => None,
                         }
-                        g2
                     }
                 };
                 if let Some(f) = frozen {
